@@ -7,9 +7,14 @@
 //!     same set; the harness builds the legacy double encoding of the same set with its own roaring / zlib /
 //!     base64 code, which must decode to the same set too.
 //! (b) E2 to closure: revoke/unrevoke batch histories on a document with two bitmap services (CoreDocument and
-//!     IotaDocument; fresh and legacy start endpoints); `BTreeSet<u32>` model per service.
-//! (c) at every state of (b): `JwtCredentialValidatorUtils::check_status` reports `Revoked` iff the index is a member;
-//!     malformed / dangling status entries never pass.
+//!     IotaDocument; fresh and legacy start endpoints). Batches are ORDERED index sequences with duplicates (every
+//!     sequence of length 0..=2 / 0..=3 over the universe); `BTreeSet<u32>` model per service; after every step the
+//!     membership of every universe index and its +-1 neighbours is compared for BOTH services and the rest of the
+//!     document must be untouched.
+//! (c) after every step of (b): `JwtCredentialValidatorUtils::check_status` on a credential pointing at each probe
+//!     index of each service reports `Revoked` iff the index is a member; once per distinct document state also the
+//!     status-entry variants (no index query, query != property, malformed index, dangling / wrong-type service,
+//!     issuer document missing), which must never pass.
 
 use identity_core::common::{Object, Url, Value};
 use identity_core::convert::{FromJson, ToJson};
